@@ -53,6 +53,7 @@ func c39(c *Ctx) {
 
 	c.Ob("selection-condition", "R7", "syncPriority: each of the five selecting arms leads to switchToChild; the arm where the child is started, not READY, not IDLE and not last cannot reach it; the scan breaks after the switch", 8, func() {
 		site := one(c, "switchToChild call in syncPriority", callsIn(sp, Callee(prio, pb+".switchToChild")))
+		c.MustFact(site, "selects-only-an-existing-child", Truth(CommaOkOf(FieldLoad(c.field(prio, pb, "children"))), true))
 		lastP := Cmp(AnyV, token.EQL, BinOpV(token.SUB, LenOf(FieldLoad(fPrios)), ConstInt(1)))
 		notLast := Cmp(AnyV, token.NEQ, BinOpV(token.SUB, LenOf(FieldLoad(fPrios)), ConstInt(1)))
 		c.Unreachable(site, "no-switch-to-a-failed-non-last-child", Truth(FieldLoad(fStarted), true), Cmp(cs, token.NEQ, k("Ready")), Cmp(cs, token.NEQ, k("Idle")), notLast)
@@ -156,6 +157,18 @@ func c39(c *Ctx) {
 			}
 		}
 		c.Expect(okIdx, nil, sl, "walk-starts-at-p+1", "the stop walk does not start at p+1")
+		// every lower priority that has a child is stopped: a priority is skipped only when no child of that name exists, and the walk is not left early
+		known := Truth(CommaOkOf(FieldLoad(c.field(prio, pb, "children"))), true)
+		c.MustFact(stop, "stops-only-existing-children", known)
+		for _, b := range sl.Blocks {
+			if i, ok := b.Instrs[len(b.Instrs)-1].(*ssa.If); ok && isLoopHeader(b) {
+				if bo, ok := i.Cond.(*ssa.BinOp); ok && LenOf(FieldLoad(fPrios))(bo.Y) {
+					c.Expect(len(breakPreds(b)) == 0, i, sl, "stop-walk-not-left-early", "the stop walk over the lower priorities is left early")
+				}
+			}
+		}
+		c.MustPass("existing-lower-child-always-stopped", pathQuery{Fn: sl, StartBlocks: edgeTargetsWhere(sl, known), Barrier: func(in ssa.Instruction) bool { return in == stop.(ssa.Instruction) },
+			Target: func(in ssa.Instruction) bool { _, isIf := in.(*ssa.If); return isReturn(in) || isIf && isLoopHeader(in.Block()) }}, stop)
 		// the stopped child is children[priorities[i]]
 		c.Expect(LookupBase(FieldLoad(c.field(prio, pb, "children")))(stop.Common().Args[0]), stop, sl, "stops-the-child-of-that-priority", "the stop walk stops something else than children[priorities[i]]")
 		starts := c.WhoMayCall("child.start", Callee(prio, cb+".start"), c.scope(prio), prio+"."+pb+".switchToChild")
